@@ -933,3 +933,38 @@ def controls(ctx, host_module: str, kinds: Sequence[str]) -> str:
     if bad:
         raise AnalysisError(f"hazard positive control failed: {bad}")
     return ", ".join(f"{k}: broken probe reported {v[0]}x, sound probe 0x" for k, v in sorted(got.items()))
+
+
+def conversions_under_loop_wide_try(ctx, fn) -> List[Tuple[ast.AST, ast.Try, ast.AST]]:
+    """numeric conversions (float / int of a non-constant) of an element's field that sit in the body of a loop whose only
+    guard is a try wrapped around the WHOLE loop with a handler that swallows: the first element that fails to convert ends
+    the loop, and every later element is silently missing from what the loop was building.  Returns (conversion, try, loop)."""
+    out = []
+    for t in [x for x in walk_no_defs(fn.node) if isinstance(x, ast.Try)]:
+        swallow = [h for h in t.handlers if not any(isinstance(y, (ast.Raise, ast.Return)) for st in h.body for y in ast.walk(st))]
+        if not swallow:
+            continue
+        for lp in [st for st in t.body if isinstance(st, (ast.For, ast.While))] + [y for st in t.body if isinstance(st, ast.If) for y in ast.walk(st) if isinstance(y, (ast.For, ast.While))]:
+            fills = any(isinstance(y, ast.Assign) and any(isinstance(tt, ast.Subscript) for tt in y.targets) or (isinstance(y, ast.Call) and isinstance(y.func, ast.Attribute) and y.func.attr in ("append", "add", "extend"))
+                        for st in lp.body for y in ast.walk(st))
+            if not fills:
+                continue
+            inner_guarded = set()
+            for st in lp.body:
+                for y in ast.walk(st):
+                    if isinstance(y, ast.Try):
+                        for b in y.body:
+                            inner_guarded |= {id(z) for z in ast.walk(b)}
+            # names that hold (parts of) the current element
+            elem = {y.id for y in ast.walk(lp.target) if isinstance(y, ast.Name)} if isinstance(lp, ast.For) else set()
+            for _ in range(2):
+                for st in lp.body:
+                    for y in ast.walk(st):
+                        if isinstance(y, ast.Assign) and any(isinstance(z, ast.Name) and z.id in elem for z in ast.walk(y.value)):
+                            elem |= {tt.id for tt in y.targets if isinstance(tt, ast.Name)}
+            for st in lp.body:
+                for y in ast.walk(st):
+                    if isinstance(y, ast.Call) and isinstance(y.func, ast.Name) and y.func.id in ("float", "int") and y.args and not isinstance(y.args[0], ast.Constant) and id(y) not in inner_guarded \
+                            and any(isinstance(z, ast.Name) and z.id in elem for z in ast.walk(y.args[0])):
+                        out.append((y, t, lp))
+    return out
